@@ -37,6 +37,28 @@ func (e *Env) WriteEvidence(id, level string, cov map[string]interface{}, assump
 	return WriteFileJSON(filepath.Join(e.Home, "evidence", id+".json"), ev)
 }
 
+// OrderedDigest combines per-case digests keyed by the case index: the result does
+// not depend on the order in which parallel workers finish.
+type OrderedDigest struct{ acc uint64 }
+
+func dmix(z uint64) uint64 {
+	z += 0x9E3779B97F4A7C15
+	z = (z ^ (z >> 30)) * 0xBF58476D1CE4E5B9
+	z = (z ^ (z >> 27)) * 0x94D049BB133111EB
+	return z ^ (z >> 31)
+}
+
+func (o *OrderedDigest) Add(i int, d uint64) { o.acc ^= dmix(dmix(uint64(i)) ^ d) }
+func (o *OrderedDigest) String() string     { return fmt.Sprintf("%016x", o.acc) }
+
+func strDigest(s string) uint64 {
+	h := uint64(0xcbf29ce484222325)
+	for i := 0; i < len(s); i++ {
+		h = (h ^ uint64(s[i])) * 0x100000001b3
+	}
+	return h
+}
+
 // Finding is one entry of known-findings.json.
 type Finding struct {
 	Property string `json:"property,omitempty"`
